@@ -190,6 +190,17 @@ def acLine (d : ACDrv) (lineNo : Nat) (ts : List String) : ACDrv × List String 
     let d := { d with cnt := d.cnt.bump "actor.simultaneous-deliveries" }
     viol d ((if handled == k then [] else ["C18.delivery-to-a-busy-actor-dropped"]) ++
             (if overlap ≤ 1 then [] else ["C18.deliveries-to-one-actor-overlap"]))
+  | "observe-overlap" :: _ =>
+    -- several table events reach one adapter at once while the non-system observer's listener dwells: every snapshot the
+    -- listener is handed must be a filtered one
+    let d := { d with cnt := d.cnt.bump "observer.overlapping-deliveries" }
+    match parsePriv post with
+    | some outP =>
+      let hidden := outP.deck.isEmpty && outP.burned.isEmpty &&
+        (if outP.event == "GameClosed" then outP.holes.all (fun h => !h.1 || (h.2.1.isEmpty && !h.2.2))
+         else outP.holes.all (fun h => h.2.1.isEmpty && !h.2.2))
+      viol d (if hidden then [] else ["C20.observer-shown-hidden-cards"])
+    | none => (d, [])
   | "observe-late" :: _ =>
     -- a listener registered on an observer that has just been taken out of system mode: what it is handed (if anything)
     let d := { d with cnt := d.cnt.bump "observer.late-listener" }
